@@ -41,3 +41,46 @@ Lemma bounded_5 : forall t, wf t = true -> length t = 5%nat ->
   forall sf, In sf (change_sets (S (length t)) t 1 1 1) ->
   explore (2 * length t + 1) t (fst sf) (snd sf) [O] O ginit sinit = true.
 Proof. intros t W L. apply (from_sweep 5 1 1 sweep_5 t W L). Qed.
+
+(* ---- the meaning of the sweeps in terms of event lists ---- *)
+(* Along the history evs, as long as each event is possible (next_events) and outside the guard
+   of the known finding: the Go model and the specification both fail, or both succeed with equal
+   observables, and so on for the rest of the history. *)
+Fixpoint agree_run (t : tree) (sched forced : changes) (imported : list nat) (fin : nat)
+  (g : gst) (q : sst) (evs : list event) : Prop :=
+  match evs with
+  | [] => True
+  | e :: r =>
+    In e (next_events t imported fin) -> guard_forced_on_finalised t q e = false ->
+    match spec_step t sched forced q e with
+    | None => is_rok (snd (go_step fixed t sched forced g e)) = false
+    | Some q' =>
+      let g' := fst (go_step fixed t sched forced g e) in
+      let imported' := match e with Import b => b :: imported | Finalise _ => imported end in
+      let fin' := match e with Import _ => fin | Finalise b => b end in
+      is_rok (snd (go_step fixed t sched forced g e)) = true /\ obs_eq t imported' g' q' = true /\
+      agree_run t sched forced imported' fin' g' q' r
+    end
+  end.
+
+Lemma explore_agree : forall evs fuel t sched forced imported fin g q,
+  explore fuel t sched forced imported fin g q = true -> (length evs <= fuel)%nat ->
+  agree_run t sched forced imported fin g q evs.
+Proof.
+  induction evs as [|e r IH]; intros fuel t sched forced imported fin g q H L; [exact I|].
+  destruct fuel as [|f]; [cbn in L; inversion L|].
+  cbn [agree_run]. intros Hin Hg.
+  pose proof (explore_step f t sched forced imported fin g q e H Hin Hg) as S.
+  destruct (spec_step t sched forced q e) as [q'|]; [|exact S].
+  cbn zeta in S. destruct S as [S1 [S2 S3]]. split; [exact S1|]. split; [exact S2|].
+  apply (IH f); [exact S3 | cbn in L; apply le_S_n; exact L].
+Qed.
+
+Lemma bounded_3_histories : forall t, wf t = true -> (length t <= 3)%nat ->
+  forall sf, In sf (change_sets (S (length t)) t 2 2 1) ->
+  forall evs, (length evs <= 2 * length t + 1)%nat ->
+  agree_run t (fst sf) (snd sf) [O] O ginit sinit evs.
+Proof.
+  intros t W L sf Hin evs Le.
+  apply (explore_agree evs (2 * length t + 1)); [apply bounded_3; assumption | exact Le].
+Qed.
